@@ -220,10 +220,20 @@ func runC20(e *core.Env) error {
 		verdict, tags := managerScenario(ctx, rr, s)
 		e.Add(core.Case{Impl: verdict, Spec: "ok", Key: fmt.Sprintf("mgr %d %d", s, e.Seed), Nontrivial: true, Tags: append(tags, "manager-scenario")})
 	}
+	// a restart whose reload fails (an integration stored through the dashboard references an unknown
+	// source): the property wants exactly the configured tasks running; recorded finding: nothing runs
+	{
+		verdict, _ := managerScenarioOpts(ctx, r.Fork(), 900, true)
+		e.Add(core.Case{Impl: verdict, Spec: "ok", Class: "C20.reload_error", Key: "mgr-reload-error", Nontrivial: true, Tags: []string{"manager-reload-error"}})
+	}
 	return nil
 }
 
 func managerScenario(ctx context.Context, rr *core.Rand, s int) (string, []string) {
+	return managerScenarioOpts(ctx, rr, s, false)
+}
+
+func managerScenarioOpts(ctx context.Context, rr *core.Rand, s int, badReload bool) (string, []string) {
 	shovel.VerifEvents()
 	pg := fakepg.New()
 	url, _ := pg.Start()
@@ -277,6 +287,9 @@ func managerScenario(ctx context.Context, rr *core.Rand, s int) (string, []strin
 		node.With(func(c *simnode.Chain) { c.Grow(1, simnode.GenOpts{Salt: uint64(100 + k), MakeTx: transferMakeTx}) })
 		name := fmt.Sprintf("igdb%d", k)
 		g := gIg{name: name, enabled: true, srcs: []string{"s1"}, refs: [][3]uint64{{0, 1, 0}}}
+		if badReload && k == 0 {
+			g.srcs = []string{"nosuch"}
+		}
 		// the table must exist (the dashboard flow does not create it: the user does)
 		root := config.Root{Integrations: []config.Integration{g.cfg()}}
 		config.ValidateFix(&root)
@@ -284,7 +297,31 @@ func managerScenario(ctx context.Context, rr *core.Rand, s int) (string, []strin
 		config.Migrate(ctx, conn, root)
 		conn.Release()
 		pg.InsertRow("shovel.integrations", map[string]fakepg.Value{"name": name, "conf": fakepg.JSON(g.json())})
-		expect["s1/"+name] = true
+		if !(badReload && k == 0) {
+			expect["s1/"+name] = true
+		}
+		if badReload && k == 0 {
+			err := mgr.Restart()
+			time.Sleep(1100 * time.Millisecond) // runners sleeping in the retry path return
+			evs := shovel.VerifEvents()
+			running := map[string]int{}
+			for _, ev := range evs {
+				switch ev.Kind {
+				case "task-start":
+					running[ev.Src+"/"+ev.IG]++
+				case "task-stop":
+					running[ev.Src+"/"+ev.IG]--
+				}
+			}
+			n := 0
+			for _, v := range running {
+				n += v
+			}
+			if err != nil && n == 0 {
+				return "after a restart whose reload failed (" + trunc2(err.Error()) + ") no task is running", tags
+			}
+			return "ok", tags
+		}
 		double := rr.Chance(1, 3)
 		if double {
 			tags = append(tags, "two-restarts-at-once")
